@@ -47,6 +47,7 @@ SaveLoadClauses(r) ==
                  InForce(le(tg), "ts", t, <<4, 4>>) = InForceAll(r.saved, "ts", t, <<4, 4>>)>>,
           <<"key-signature-in-force", Len(r.loaded) >= 1 => \A t \in ticks :
                  InForce(le(tg), "ks", t, <<"">>) = InForceAll(r.saved, "ks", t, <<"">>)>>,
+          <<"time-signature-from-tick-0", Len(r.loaded) >= 1 => InForce(le(tg), "ts", 0, <<>>) # <<>>>>,
           <<"signatures-only-on-meta-sequence", \A i \in DOMAIN r.loaded : i # tg => (SigsOf(le(i), "ts") = <<>> /\ SigsOf(le(i), "ks") = <<>>)>> >>
 InSaveDomain(r) == /\ \A i \in DOMAIN r.saved : LET e == RelEvents(r.saved[i]) IN
                         /\ WellFormed(e) /\ NoOverlap({[x EXCEPT !.ch = 0] : x \in Notes(e)})
